@@ -204,36 +204,19 @@ theorem frontEnd_bytes_request_placed (d : Defaults) {cpu mem : Nat} {sto : Opti
     obtain ⟨p, hp, hn, hm, -, hfit, -⟩ := fits_worker price locs pools j cloud _ _ hsel
     exact ⟨h1, h2, h3, p, hp, hn, hm, hfit⟩
 
-/-! ### internal errors (finding: `machine_type: ''`)
+/-! ### internal errors
 
-Full statement: a request accepted by the job schema never ends in an internal error (it is placed or
-rejected).  It is FALSE for the code as it stands: `resources = {'machine_type': ''}` passes every
-`if machine_type and …` guard, is not `None`, and trips `assert machine_type and …` in `select_inst_coll`. -/
+A request accepted by the job schema never ends in an internal error: it is placed or rejected.
+(Before repo commit 2e6787788 this was false for `resources = {'machine_type': ''}`, see the `…_old` example.) -/
 
-/-- the full-strength statement -/
-def NoInternalError : Prop :=
-  ∀ (price : Pool → String → Nat × Nat × Nat → Nat) (locs : List String) (pools : List Pool) (j : Jpim) (d : Defaults)
-    (cloud : Cloud) (r : Request), (∀ p ∈ pools, p.WellFormed) →
-    (∀ name, r.memory.getD d.memory = .sym name → name ∈ memoryTypes) →
-    frontEnd price locs pools j d cloud r ≠ .err
+/-- the empty string is not a machine type of either cloud (generated tables) -/
+theorem empty_string_is_no_machine_type : validMachineType .gcp "" = false ∧ validMachineType .azure "" = false := by
+  decide +kernel
 
-/-- the witness: the empty machine type -/
-theorem empty_machine_type_is_internal_error :
-    frontEnd (fun _ _ _ => 0) [] [] ⟨"job-private", .gcp⟩ ⟨1000, .sym "standard", 0, true⟩ .gcp
-      ⟨some "", none, none, none, none, none⟩ = .err := by decide +kernel
-
-/-- negation of the full statement, on the witness -/
-theorem no_internal_error_fails : ¬ NoInternalError := by
-  intro h
-  exact h (fun _ _ _ => 0) [] [] ⟨"job-private", .gcp⟩ ⟨1000, .sym "standard", 0, true⟩ .gcp
-    ⟨some "", none, none, none, none, none⟩ (by simp) (by intro name hn; simp [Option.getD] at hn; subst hn; decide) empty_machine_type_is_internal_error
-
-/-- PARTIAL (excluding hypothesis `hmt`: the machine type is not the empty string): every other request
-accepted by the schema is placed or rejected, never an internal error.  Missing for the full statement:
-the front end must treat `machine_type == ''` like an absent or an unknown machine type. -/
-theorem no_internal_error_partial (d : Defaults) (r : Request) (hwf : ∀ p ∈ pools, p.WellFormed)
-    (hmem : ∀ name, r.memory.getD d.memory = .sym name → name ∈ memoryTypes)
-    (hmt : r.machineType ≠ some "") :
+/-- **No internal error**, full strength: for well-formed pools and a symbolic memory drawn from `memory_types`
+(what the job schema admits), every request — including `machine_type = ''` — is placed or rejected. -/
+theorem no_internal_error (d : Defaults) (r : Request) (hwf : ∀ p ∈ pools, p.WellFormed)
+    (hmem : ∀ name, r.memory.getD d.memory = .sym name → name ∈ memoryTypes) :
     frontEnd price locs pools j d cloud r ≠ .err := by
   obtain ⟨mt, lab, pr, cpu, memo, sto⟩ := r
   have hfin : ∀ res : Res Granted, res ≠ .err → finish res ≠ .err := by
@@ -259,17 +242,20 @@ theorem no_internal_error_partial (d : Defaults) (r : Request) (hwf : ∀ p ∈ 
           dsimp only
           exact hfin _ (pool_request_no_internal_error price locs pools j cloud _ _ hwf (some wt) _ _ _)
   | some m =>
-    have hne : m ≠ "" := fun h => hmt (by rw [h])
-    simp only [frontEnd, hne, if_false]
+    simp only [frontEnd]
     split
     · simp
-    · split
+    next hvalid =>
+      have hv : validMachineType cloud m = true := by simpa using hvalid
+      have hne : m ≠ "" := by
+        intro h; subst h
+        have := empty_string_is_no_machine_type
+        cases cloud <;> simp_all
+      split
       · simp
       · split
         · simp
-        next hvalid _ _ =>
-          apply hfin
-          have hv : validMachineType cloud m = true := by simpa using hvalid
+        · apply hfin
           simp only [selectInstColl, hne, ne_eq, not_false_eq_true, hv, and_self, if_true]
           unfold selectJobPrivate
           split
@@ -283,6 +269,19 @@ theorem no_internal_error_partial (d : Defaults) (r : Request) (hwf : ∀ p ∈ 
               split
               next hn => rw [hn] at hv; simp at hv
               next => simp
+
+/-- the empty machine type is now answered `invalid` (HTTP 400 "unknown machine type") -/
+theorem empty_machine_type_is_rejected (d : Defaults) (lab : Option String) (pr : Option Bool) (cpu : Option Nat)
+    (memo : Option MemReq) (sto : Option Nat) :
+    frontEnd price locs pools j d cloud ⟨some "", lab, pr, cpu, memo, sto⟩ = .invalid := by
+  have := empty_string_is_no_machine_type
+  cases cloud <;> simp_all [frontEnd]
+
+/-- REPAIRED DEFECT (documentation): the block as it was before commit 2e6787788 answered the empty machine type
+with an internal error (the assert in `select_inst_coll`). -/
+theorem empty_machine_type_is_internal_error_old :
+    frontEndOld (fun _ _ _ => 0) [] [] ⟨"job-private", .gcp⟩ ⟨1000, .sym "standard", 0, true⟩ .gcp
+      ⟨some "", none, none, none, none, none⟩ = .err := by decide +kernel
 
 /-! Non-vacuity / boundary examples on the generated tables. -/
 
